@@ -77,6 +77,8 @@ func thresholdSet(crit []float64) []float64 {
 	return append(out, u[len(u)-1]+1)
 }
 
+func halfDistance(a, b orb.Point) float64 { return planar.Distance(a, b) / 2 }
+
 func same(a, b orb.LineString) bool {
 	if len(a) != len(b) {
 		return false
@@ -183,6 +185,12 @@ func main() {
 			runs[c.Worker]++
 			out := simplify.Radial(planar.Distance, t).LineString(in.Clone())
 			what := fmt.Sprintf("Radial(%v).LineString", t)
+			// the distance function is the caller's: the same metric in other units (halved, with the halved
+			// threshold - both exact in floating point) must make the same decisions
+			if o2 := simplify.Radial(halfDistance, t/2).LineString(in.Clone()); !same(o2, out) {
+				c.Failf("radial-metric", "Radial(distance/2, %v) gives %v, Radial(distance, %v) gives %v | %v", t/2, o2, t, out, in)
+				return
+			}
 			if !basic("radial-subsequence", out, what) {
 				return
 			}
